@@ -227,6 +227,9 @@ var mgen = lib.GenOpts{FieldProb: -1, Target: 3, MaxDepth: 2, MaxElems: 2}
 const deviceName = "dev/under-test"
 
 func runTriple(t *rapid.T, e serverEntry, tr triple) string {
+	// handlers of an earlier case (its streams are cancelled, but a handler may not even have started yet under load)
+	// must be gone, or their late subscriptions would be mistaken for this case's
+	observable := lib.WaitGoroutines(0, 5*time.Second, "pkg/wrap.(*wrapper).NewStream.func", pullGoroutines[0], pullGoroutines[1]) == 0
 	srv := e.NewServer()
 	r := e.NewRouter()
 	r.(router.Router).Add(deviceName, e.Wrap(srv))
@@ -305,7 +308,8 @@ func runTriple(t *rapid.T, e serverEntry, tr triple) string {
 				}
 			}
 		}()
-		if updatesOnly && !lib.WaitNewGoroutine(pullersBefore, 5*time.Second, pullGoroutines...) {
+		if updatesOnly && (!observable || !lib.WaitNewGoroutine(pullersBefore, 5*time.Second, pullGoroutines...)) {
+			observable = false // a late subscription of this stream must not be taken for a later stream's
 			// not observed: deliveries are still checked, but none is demanded before the stream has shown it is subscribed
 			ps.unsynced = true
 			lib.Ev.Class("updates-only stream: subscription not observed (delivery not demanded until its first message)")
@@ -397,7 +401,8 @@ func runTriple(t *rapid.T, e serverEntry, tr triple) string {
 			for si, ps := range streams {
 				p := lib.RefProject(resp, ps.mask)
 				ps.allowed = append(ps.allowed, p)
-				must := significantDiff(p, ps.last) && !ps.unsynced
+				// presence of empty messages on mask paths is not compared (as in C05/C06), so it cannot demand a delivery either
+				must := significantDiff(lib.DropEmptyOnPaths(proto.Clone(p), ps.mask), lib.DropEmptyOnPaths(proto.Clone(ps.last), ps.mask)) && !ps.unsynced
 				if err := awaitNext(ps, ps.allowed, must, ps.mask); err != nil {
 					fail("stream %d (mask %s updatesOnly=%v) after a successful update: %v", si, lib.MaskString(ps.mask), ps.updatesOnly, err)
 				}
@@ -461,6 +466,12 @@ func awaitNext(ps *pullStream, allowed []proto.Message, must bool, mask *fieldma
 				ps.checked++
 				continue
 			}
+			if found < 0 && ps.last != nil && proto.Equal(lib.DropEmptyOnPaths(proto.Clone(m), mask), lib.DropEmptyOnPaths(proto.Clone(ps.last), mask)) {
+				// the value it delivered last, again (an update that changed nothing under this mask, whose entry
+				// in the allowed list was already taken to be delivered)
+				ps.checked++
+				continue
+			}
 			if found < 0 {
 				ps.mu.Unlock()
 				return fmt.Errorf("the stream delivered %s which is not one of the values it may deliver now (stale, invented or out of order); allowed: %v", txt(m), txtAll(allowed[pos:]))
@@ -470,6 +481,22 @@ func awaitNext(ps *pullStream, allowed []proto.Message, must bool, mask *fieldma
 			ps.last = allowed[found]
 		}
 		ps.mu.Unlock()
+		// values that differ only in the presence of empty messages on mask paths compare equal here, so a delivered
+		// message may have been matched against an earlier, equal-looking allowed value: the tail counts as delivered
+		// when every remaining allowed value looks like the last delivered one
+		if must && pos > 0 && pos < len(allowed) {
+			lastDelivered := lib.DropEmptyOnPaths(proto.Clone(allowed[pos-1]), mask)
+			tailSame := true
+			for k := pos; k < len(allowed); k++ {
+				if !proto.Equal(lib.DropEmptyOnPaths(proto.Clone(allowed[k]), mask), lastDelivered) {
+					tailSame = false
+					break
+				}
+			}
+			if tailSame {
+				pos = len(allowed)
+			}
+		}
 		if !must || pos == len(allowed) {
 			if pos > 0 {
 				ps.allowed = append([]proto.Message(nil), allowed[pos:]...)
